@@ -202,3 +202,23 @@ Definition c07_case (x : ccase) : bool :=
 Definition c07_fifo_case (x : ccase) : bool := c07_fifo (k_cfg x) (k_iters x).
 Definition c07_complete_case (x : ccase) : bool := c07_complete (k_cfg x) (k_iters x).
 Definition c07_healed_case (x : ccase) : bool := c07_healed (k_cfg x) (k_iters x).
+
+(** ** unit level: two queued 'modified' events of one object merged by the real ErrorQueue *)
+Record mucase := MUCase { mu_o : obj; mu_p : mdiff; mu_l : mdiff; mu_merged : option mdiff (* None = not merged *) }.
+Definition corr_mucase (x : mucase) : bool :=
+  match mu_merged x with
+  | Some m => mdiff_eqb m (merge_mod (mu_p x) (mu_l x))
+  | None => false
+  end.
+Definition c08_mucase (x : mucase) : bool :=
+  match mu_merged x with
+  | Some m => obj_eqb (apply_mod m (mu_o x)) (apply_mod (mu_l x) (apply_mod (mu_p x) (mu_o x)))
+  | None => false
+  end.
+Definition check_mucases (f g : mucase -> bool) (l : list mucase) : list (Z * Z * Z) :=
+  let fix go (i : Z) (l : list mucase) :=
+    match l with
+    | [] => []
+    | x :: r => (i, b2z (f x), b2z (g x)) :: go (i + 1)%Z r
+    end in
+  List.filter (fun t => negb (Z.eqb (snd (fst t)) 1%Z && Z.eqb (snd t) 1%Z)) (go 0%Z l).
